@@ -587,6 +587,11 @@ def programs(tier):
             (pre + "[[v(x) + y for x in [1, 0] for y in [10, 20] if c(x)], t]", "[[16, 26], ['c1', 'v1', 'c1', 'v1', 'c0', 'c0']]"),
             (pre + "[<<v(x) + y for x in [1, 0] for y in [10, 20] if c(x)>>, t]", "[<<16, 26>>, ['c1', 'v1', 'c1', 'v1', 'c0', 'c0']]"),
             (pre + "[<<v(x) + y for x in [1, 0, 2] also for y in [10, 20, 30] if c(x)>>, t]", f"[<<16, 33>>, {tr}]"),
+            # the product form is two nested loops: the second list is evaluated per element of the first and may refer to it
+            ("[x * y for x in [1, 2] for y in [x, 10]]", "[1, 10, 4, 20]"), ("def r = []; for x in [1, 2] do for y in [x, 10] do append(r, x * y) end end; r", "[1, 10, 4, 20]"),
+            ("<<x * y for x in [1, 2] for y in [x, 10]>>", "<<1, 4, 10, 20>>"), ("[[x, y] for x in [] for y in undefined_name_q]", "[]"),
+            ("def n = 0; def mk() do n += 1; [n] end; [[x, y] for x in [1, 2, 3] for y in mk()]; n", "3"),
+            ("[y for x in [[1, 2], [3]] for y in x]", "[1, 2, 3]"),
             ("[1 / x for x in [1, 0, 2] if x != 0]", "[1, 0]"), ("<<1 / x for x in <<0, 1>> if x != 0>>", "<<1>>"),
             ("<<<x => 1 / x for x in [0, 1] if x != 0>>>", "<<<1 => 1>>>"),
             ("do [1 / x for x in [1, 0, 2] if x >= 0] catch all 'err' end", "'err'")]
